@@ -19,7 +19,7 @@ func init() {
 	})
 	register(&propDef{
 		id:      "C35",
-		explain: "Structural necessary conditions of 'temporary files of a parsed multipart form never outlive the request': (R1) a *multipart.Form produced by ReadForm / readMultipartForm is, on every path from the producing call to a return, stored into Request.multipartForm (where Reset finds it), returned to the caller, explicitly removed with RemoveAll, or the producing call reported an error; (R2) Request.multipartForm is set to nil only after RemoveAll on the non-nil branch; (R3) Request.Reset and RequestCtx.reset clear multipartForm on every path (through the remover), and every serve-loop iteration that ran a handler passes Request.Reset before the next request. (R4) a form (or the nil of a failed parse) is stored into Request.multipartForm only where the slot is known to be empty on that path - the field was tested and found nil, or a routine that removes the files and clears the slot ran before; routines that receive the connection reader fill a request emptied by the read entry points (checked: Read/ReadLimitBody clear on every path) or by the serve loop (R3); a ctx goes back to the pool only after RequestCtx.reset; (R5) the serve function leaves, on every return, with its ctx released or handed to the hijack goroutine (decided with the premise, itself checked, that errHijacked is handed out only after that goroutine was started), and the hijack goroutine resets the request it took over on every path, by releaseCtx or Request.Reset. Not decided: form content round trip, files moved away by user code.",
+		explain: "Structural necessary conditions of 'temporary files of a parsed multipart form never outlive the request': (R1) a *multipart.Form produced by ReadForm / readMultipartForm is, on every path from the producing call to a return, stored into Request.multipartForm (where Reset finds it), returned to the caller, explicitly removed with RemoveAll, or the producing call reported an error; (R2) Request.multipartForm is set to nil only after RemoveAll on the non-nil branch; (R3) Request.Reset and RequestCtx.reset clear multipartForm on every path (through the remover), and every serve-loop iteration that ran a handler passes Request.Reset before the next request. (R4) a form (or the nil of a failed parse) is stored into Request.multipartForm only where the slot is known to be empty on that path - the field was tested and found nil, or a routine that removes the files and clears the slot ran before; routines that receive the connection reader fill a request emptied by the read entry points (checked: Read/ReadLimitBody clear on every path) or by the serve loop (R3); a ctx goes back to the pool only after RequestCtx.reset; (R5) the serve function leaves, on every return, with its ctx released or handed to the hijack goroutine (decided with the premise, itself checked, that errHijacked is handed out only after that goroutine was started), and the hijack goroutine resets the request it took over on every path, by releaseCtx or Request.Reset. (R6) in WriteMultipartForm every iteration of a loop over the form's values or files passes a part-creating call of the multipart writer before the loop header is reached again - no entry is skipped, whatever it holds. Not decided: form content round trip beyond that, files moved away by user code.",
 		run:     runC35,
 	})
 }
@@ -243,6 +243,7 @@ func isCallResultNamed(v ssa.Value, name string) bool {
 func runC35(p *Prog, r *Report) {
 	formSlotOverwrittenOnlyWhenEmpty(p, r)
 	ctxReleasedOrHandedOver(p, r)
+	everyEntryGetsItsPart(p, r)
 	// R1: producers of *multipart.Form
 	isFormProducer := func(c *ssa.Call) bool {
 		f := c.Call.StaticCallee()
@@ -878,4 +879,64 @@ func ctxReleasedOrHandedOver(p *Prog, r *Report) {
 	}
 	r.Check("R5", "serveConnCounted: the ctx is released or handed to the hijack goroutine on every return", bad == 0, p.Pos(pos),
 		fmt.Sprintf("%d of %d explored returns leave the function with the ctx neither released nor handed over: its request is never reset, so the temporary files of an uploaded form stay on disk after the connection is gone", bad, n), wit...)
+}
+
+// everyEntryGetsItsPart (C35.R6): serialising a form writes one part per value and one per file, whatever the part
+// holds. In WriteMultipartForm every loop that contains a part-creating call of the multipart writer (WriteField,
+// CreatePart, CreateFormFile, CreateFormField) passes such a call on every path from the loop header back to it: an
+// iteration that continues before the part was created (empty file, empty value) drops the entry - name, filename
+// and content type included - from the message, and the form does not round-trip.
+func everyEntryGetsItsPart(p *Prog, r *Report) {
+	fn := p.Func("WriteMultipartForm")
+	if fn == nil {
+		r.Undecided("R6", "WriteMultipartForm", "not found")
+		return
+	}
+	creates := func(i ssa.Instruction) bool {
+		c, ok := i.(ssa.CallInstruction)
+		if !ok || c.Common().StaticCallee() == nil {
+			return false
+		}
+		f := c.Common().StaticCallee()
+		if recvTypeName(f) != "Writer" || f.Pkg == nil || f.Pkg.Pkg.Path() != "mime/multipart" {
+			return false
+		}
+		switch f.Name() {
+		case "WriteField", "CreatePart", "CreateFormFile", "CreateFormField":
+			return true
+		}
+		return false
+	}
+	headers := map[*ssa.BasicBlock]token.Pos{}
+	for _, b := range fn.Blocks {
+		for _, in := range b.Instrs {
+			if creates(in) {
+				if h := loopHeaderOf(b); h != nil {
+					if _, seen := headers[h]; !seen {
+						headers[h] = in.Pos()
+					}
+				}
+			}
+		}
+	}
+	var hs []*ssa.BasicBlock
+	for h := range headers {
+		hs = append(hs, h)
+	}
+	sort.Slice(hs, func(i, j int) bool { return hs[i].Index < hs[j].Index })
+	for k, h := range hs {
+		pos := headers[h]
+		term := h.Instrs[len(h.Instrs)-1]
+		first := h.Instrs[0]
+		outside := map[*ssa.BasicBlock]bool{}
+		for _, b := range fn.Blocks {
+			if !inLoop(h, b) {
+				outside[b] = true
+			}
+		}
+		hit, path := reachAvoiding(fn, term, func(i ssa.Instruction) bool { return i == first }, creates, outside)
+		r.Check("R6", fmt.Sprintf("WriteMultipartForm: every iteration of entry loop #%d creates the entry's part", k+1), hit == nil, p.Pos(pos),
+			"the loop header is reachable again from itself without a part-creating call of the multipart writer: an entry for which the iteration continues early (an empty file, say) leaves no part in the message - its name, filename and content type are lost and the written form does not parse back to the original", blocksString(p, path)...)
+	}
+	r.Floor("R6", "entry loops with a part-creating call in WriteMultipartForm", len(headers), 2)
 }
